@@ -60,14 +60,14 @@ SPEC = {
         "thorough": {
             "evaluations": 5_000_000, "distinct_nontrivial": 400,
             "grid_points": 33_000, "grid_shards_completed": 16, "grid_valid_param_pairs": 500,
-            "solver_solutions": 3000, "valid_vector": 46, "valid_header": 1,
-            "valid_n48_k5": 1000, "valid_n96_k5": 200, "valid_n200_k9": 9, "valid_n96_k3": 2, "valid_n264_k11": 1,
+            "solver_solutions": 2500, "valid_vector": 46, "valid_header": 1,
+            "valid_n48_k5": 500, "valid_n96_k5": 200, "valid_n200_k9": 9, "valid_n96_k3": 2, "valid_n264_k11": 1,
             "bitflips_soln": 500_000, "bitflips_input": 500_000, "bitflips_nonce": 500_000,
             "judged_mut-swap-siblings": 10_000, "judged_mut-doubled-blocks": 10_000, "judged_mut-chunk-collider": 8000,
             "judged_mut-subtree-substitute": 4000, "judged_near-solution": 3000,
             "judged_near-solution-last-chunk-only": 3000, "judged_embedded-duplicate-subtree": 500,
             "judged_single-duplicate-leaf": 10_000, "single_duplicate_leaf_inner_in_left_last_in_right": 500,
-            "valid_solution_with_wrong_length_calls": 50_000,
+            "valid_solution_with_wrong_length_calls": 15_000,
             "rust_err_collision": 10_000, "rust_err_order": 10_000, "rust_err_duplicate": 5000, "rust_err_nonzero-root": 1000,
             "ref_judged": 100_000, "selftest_vectors": 56,
         },
